@@ -83,6 +83,7 @@ func (gaugeScenario) Build(cfg string) ([]func(), func(*vsched.Sched) []string) 
 	conf.Fallback.MaxConcurrentRequests = int64(fbmc)
 	conf.Execution.Timeout = 0
 	c.SetConfigThreadSafe(conf)
+	nameVars(c, "c")
 	var problems []string
 	inRun, inFb := 0, 0
 	runInvoked, fbInvoked := 0, 0
